@@ -32,6 +32,7 @@ func runC11(c *Ctx, r *Report) {
 	c11PeerKey(c, r, "C11.R13")
 	c03Dial(c, r, "C11.R15", false) // every failed dial is remembered on the peer that failed: plain and TLS upstreams, dial and header-write failures (evaluation of dialPeers over all outcomes)
 	c11PeersFrozen(c, r, "C11.R16")
+	c11AdmissionBeforeDial(c, r, "C11.R17")
 	c15R6(c, r, "C11.R14") // the health checks in effect are the configured ones: a Caddyfile option never replaces a health-check object an earlier option has filled in
 	// an upstream at its connection limit is not given another connection: every policy returns only upstreams
 	// for which available() (health AND limits) holds - the policy tables of C10 with full pool states
